@@ -1461,7 +1461,25 @@ def boundary_specs():
         for d in range(0, Rr + 1):
             yield 'bipartite', ['regular', L, Rr, d]
             yield 'bipartite', ['glrd', L, Rr, d]
+    # numbers that are not integers where a count is due, and probabilities that are not numbers: to be refused, not rounded
+    for x in ['2.5', '0.5', '25e-1', '-0.5', '6.5', '1.999999', 'nan', 'inf', '-inf', '1e400']:
+        for N in (4, 6):
+            yield 'simple', ['gnm', N, x]
+            yield 'simple', ['gnd', N, x]
+            yield 'simple', ['gnp', N, x] if x in ('nan', 'inf', '-inf', '1e400') else ['gnp', x, '0.5']
+        yield 'simple', ['complete', x]
+        yield 'simple', ['grid', 2, x]
+        yield 'bipartite', ['glrm', 3, 3, x]
+        yield 'bipartite', ['glrd', 3, 3, x]
+        yield 'bipartite', ['regular', 4, 4, x]
+        yield 'bipartite', ['glrp', 3, 3, x] if x in ('nan', 'inf', '-inf', '1e400') else ['glrp', 3, x, '0.5']
+        yield 'bipartite', ['complete', x, 3]
+        yield 'bipartite', ['shift', 3, 3, x]
     for gtype in ('dag', 'digraph'):
+        for x in ['2.5', '0.5', 'nan', 'inf']:
+            yield gtype, ['path', x]
+            yield gtype, ['tree', x]
+            yield gtype, ['pyramid', x]
         for a in range(-1, 9):
             yield gtype, ['path', a]
         for a in range(-1, 4):
